@@ -352,6 +352,9 @@ func init() {
 			if c.Idx%97 == 41 {
 				return runC01TwinSubtypeOutputs(c, r)
 			}
+			if c.Idx == 13 {
+				return runC01TwinInterfaceSubtypeHop(c, r)
+			}
 			s, fam := pickGeneralMix(r)
 			if c.Idx%13 == 6 {
 				// free-form subtypes (key=value, words, punctuation, "%2C")
@@ -871,5 +874,60 @@ func runC01TwinSubtypeOutputs(c *CaseCtx, r *rand.Rand) (res CaseResult) {
 		}
 	}
 	res.Sample = map[string]interface{}{"scenario": s.String(), "family": "twin-subtype-outputs"}
+	return res
+}
+
+type twinHopIn struct {
+	am.Struct
+	P I0 `argmapper:",typeOnly,subtype=x"`
+}
+
+type twinHopOut struct {
+	am.Struct
+	O I0 `argmapper:",typeOnly,subtype=y"`
+}
+
+// runC01TwinInterfaceSubtypeHop (one fixed case per run): a type-only
+// parameter of interface type I0 with subtype x; the only producer of an I0
+// yields subtype y; an unrelated converter takes the twin interface I0twin
+// (same method set as I0), which puts a subtype-less I0twin vertex into the
+// graph. I0/x and I0/y are identical types with different subtypes: the
+// parameter must not receive the y value. The pinned library hands it over
+// through the twin's vertex (I0/x <- I0twin <- I0/y: each hop is an
+// "implements" edge) -- D38, an open known finding, reported under its own key.
+func runC01TwinInterfaceSubtypeHop(c *CaseCtx, r *rand.Rand) (res CaseResult) {
+	res.NonTrivial = true
+	res.Key = "twin-interface-subtype-hop"
+	res.obs("family.twin-interface-subtype-hop", 1)
+	det := map[string]interface{}{"case": res.Key}
+	defer func() {
+		if p := recover(); p != nil {
+			res.violate("C06", "panic/"+crashKey(fmt.Sprint(p)), fmt.Sprintf("Call panicked: %v", p), det)
+		}
+	}()
+	var got int64
+	ran := 0
+	f, err := am.NewFunc(func(in twinHopIn) { ran++; got = in.P.I0tok() })
+	if err != nil {
+		res.Skip = "newfunc"
+		return res
+	}
+	prov := func() twinHopOut { return twinHopOut{O: T0{ID: 4242}} }
+	other := func(j I0twin) T5 { return T5{ID: 1} }
+	handed := 0
+	for k := 0; k < 20; k++ {
+		ran, got = 0, -1
+		rr := f.Call(am.Converter(prov), am.Converter(other))
+		res.Evals++
+		if ran > 0 && got == 4242 {
+			handed++
+		} else if rr.Err() == nil {
+			res.violate("C01", "binding/fabricated", fmt.Sprintf("the parameter I0/x received #%d, which nobody produced", got), det)
+		}
+	}
+	if handed > 0 {
+		res.violate("C01", "binding/twin-interface-subtype-hop", fmt.Sprintf("a type-only parameter I0 with subtype x received the value a provider returned as I0 with subtype y in %d of 20 identical calls (handed over through the vertex of a distinct interface type with the same method set)", handed), det)
+	}
+	res.Sample = det
 	return res
 }
